@@ -450,6 +450,9 @@ func (s *Server) handleConnReceiver(module *Module, crd *rsyncwire.CountingReade
 		},
 		Dest: module.Path,
 		Env: &rsyncos.Env{
+			// The receiver prints file names to Stdout when the peer asks
+			// for --progress or sends a dry run without --server.
+			Stdout: io.Discard,
 			Stderr: s.stderr,
 		},
 		Conn:     c,
@@ -552,6 +555,9 @@ func (s *Server) handleConnSender(module *Module, crd *rsyncwire.CountingReader,
 		Conn:   c,
 		Seed:   sessionChecksumSeed,
 		Env: &rsyncos.Env{
+			// (see handleConnReceiver: a peer that omits --server makes
+			// the sender print file names, too)
+			Stdout: io.Discard,
 			Stderr: s.stderr,
 		},
 		Progress: progress.NewPrinter(io.Discard, time.Now),
